@@ -58,7 +58,12 @@ def run(env, tier, seed, broken=None):
     for c, r in allres:
         nontriv.add((r['status'], r['stderr'][:25]))
         bad = None
-        if r['timeout']:
+        mres = rm.get(c['id']) if isinstance(c, dict) else None
+        if r['timeout'] and mres and mres[0] in ('noresult:timeout', 'noresult:memory', 'noresult:stack', 'noresult:fuel'):
+            # neither the implementation nor the model finishes within its allowance (a generated program whose data grows
+            # exponentially): no verdict
+            core.INCONCLUSIVE.append('both:' + mres[0])
+        elif r['timeout']:
             bad = 'did not terminate within the time limit'
         elif r['status'] not in (0, 65, 70) or core.PANIC_RX.search(r['stderr']):
             bad = 'abnormal termination: status %s, stderr head %r' % (r['status'], r['stderr'][:120])
